@@ -175,7 +175,9 @@ class Types:
             r = self._inst("vmap", [a, b])
             self.elem[r] = pr
             return r
-        if head in ("std::set", "std::unordered_set", "std::multiset") and args:
+        if head in ("std::set", "std::unordered_set", "std::multiset", "std::multimap") and args:
+            # std::multimap<K, V> is lowered KEYS ONLY (the set of keys present); the mapped values are dropped
+            # (used for the annotator's id index, whose completeness is a statement about its keys)
             a = self._ctype(args[0])
             if a is None:
                 return None
@@ -542,6 +544,21 @@ TRANSPARENT = ("ExprWithCleanups", "CXXBindTemporaryExpr", "MaterializeTemporary
                "SubstNonTypeTemplateParmExpr")
 
 BINOPS = {"+", "-", "*", "/", "%", "<", ">", "<=", ">=", "==", "!=", "&&", "||", "&", "|", "^", "<<", ">>", "=", ","}
+
+
+def _find_make_pair(n):
+    """the std::make_pair call inside an argument expression (through conversions and temporaries)"""
+    if not isinstance(n, dict):
+        return None
+    if n.get("kind") == "CallExpr" and n.get("inner"):
+        c = _strip_casts(n["inner"][0])
+        if (c.get("referencedDecl") or {}).get("name") == "make_pair":
+            return n
+    for k in n.get("inner", []) or []:
+        r = _find_make_pair(k)
+        if r is not None:
+            return r
+    return None
 
 
 class FunctionLowerer:
@@ -1567,6 +1584,16 @@ class FunctionLowerer:
         if ot.startswith("libcellml::") or (md is not None and md.get("_sig", "").startswith("libcellml::")):
             return self.cellml_method(n, me, obj, name, md, args)
         oct_ = self.T.ctype(obj["type"])
+        if name == "insert" and len(args) == 1 and "std::multimap<" in (self.T.qt(obj["type"]) or ""):
+            # keys-only multimap: insert(std::make_pair(k, v)) inserts k
+            mp = _find_make_pair(args[0])
+            if mp is None:
+                self.bad(n, "multimap insert without std::make_pair")
+            lv = self.lvalue_or_none(obj)
+            if lv is None:
+                self.bad(n, "multimap insert on a temporary")
+            self.note_call("std::%s::insert" % oct_)
+            return "%s_insert_1(&(%s), %s)" % (oct_, lv, self.expr(mp["inner"][1]))
         if me.get("isArrow") and oct_.endswith(" *"):
             # it->member(): the object is what the pointer (from operator->) designates
             return self.std_method(n, oct_[:-2], obj, name, args, me, deref=True)
